@@ -219,6 +219,7 @@ struct C12View {
   std::string xsource;
   std::string simin[8]; bool siminPresent[8] = {};
   uint64_t budget = 20000;
+  bool hasSymbols = false;
 };
 
 class HostSim : public sim::Harness {
@@ -318,6 +319,21 @@ public:
       } else if (k < 6) op["hex"] = sim::toHex(unwrittenTemplate(r));
       else { gen::ImgCfg ic; ic.maxWords = 96; Rng ir = r.fork(3); op["hex"] = sim::toHex(gen::makeImage(ir, ic)); }
       if (!op.has("corpus") && r.chance(1, 4)) op["tail_cut"] = (unsigned long long)(1 + r.below(3));
+      else if (!op.has("corpus") && r.chance(1, 2)) {
+        // A symbol table behind the image, as the assembler writes for PROC/FUNC: the trace labels
+        // every instruction with the enclosing symbol, also when execution has left the image.
+        Json syms = Json::array();
+        unsigned ns = 1 + (unsigned)r.below(3), at = 0;
+        for (unsigned q = 0; q < ns; q++) {
+          Json e = Json::array();
+          std::string name = "s" + std::to_string(q);
+          if (r.chance(1, 5)) name += "_" + std::string(20 + r.below(60), (char)('a' + r.below(26)));
+          e.push(name); e.push((unsigned long long)at);
+          syms.push(e);
+          at += (unsigned)r.below(64);
+        }
+        op["symbols"] = syms;
+      }
       ops.push(op);
     }
     {
@@ -479,6 +495,15 @@ public:
           unsigned cut = img.size() >= 8 ? (unsigned)(op.getU64("tail_cut") % 4) : 0;
           v.file += img.substr(0, img.size() - cut);
           v.tailCut = cut;
+          if (!cut && op.has("symbols")) {
+            const Json &sy = op.at("symbols");
+            auto u32 = [&](uint32_t x) { for (int q = 0; q < 4; q++) v.file.push_back((char)(x >> (8 * q))); };
+            u32((uint32_t)sy.a.size());
+            for (auto &e : sy.a) { v.file += e.a[0].s; v.file.push_back('\0'); }
+            u32((uint32_t)sy.a.size());
+            for (size_t q = 0; q < sy.a.size(); q++) { u32((uint32_t)q); u32((uint32_t)sy.a[q].a[1].i); }
+            v.hasSymbols = true;
+          }
         }
         if (op.has("xsource")) v.xsource = op.getStr("xsource");
         v.progName = op.getStr("corpus", op.getStr("from_corpus", "generated"));
@@ -751,6 +776,31 @@ public:
         }
       }
       o.stateKeys.push_back("c12 trace img=" + imgClass);
+    }
+    // (c') runs too long to trace completely (programs that never exit inside the budget: they run off
+    // the end of the image through zero memory, or loop): the first T instructions, traced and not,
+    // at library level in every host state, stopped by the observer at the same instruction.
+    if (v.trace && steps > 6000 && !o.violated) {
+      uint64_t T = 1500 + v.maxCycles % 2500;
+      std::string pristine;
+      for (size_t h = 0; h < hosts.size() && !o.violated; h++) {
+        RunRes base = runLib(v, hosts[h], false, 0, T);
+        RunRes r = runLib(v, hosts[h], true, 0, T);
+        sim::g_log.evs("trace_prefix_run", hosts[h].str() + " -> " + r.t.str() + " out=" + std::to_string(r.out.size()), T);
+        o.count("fault.trace_on_prefix_of_long_run");
+        if (hung(r.t) || hung(base.t)) { o.note = "skipped:watchdog"; o.count("probe.watchdog_hit"); return; }
+        std::string d = cmpRuns(r, base, false, true);
+        if (d.empty() && r.syscalls != base.syscalls) d = "system-call sequence differs (" + std::to_string(r.syscalls.size()) + " vs " + std::to_string(base.syscalls.size()) + ")";
+        if (!d.empty()) { o.violate("host_state_dependent", "-t changed the first " + std::to_string(T) + " instructions of the run: " + d + " [host " + hosts[h].str() + ", image " + v.progName + "]", "host_state_dependent:trace"); break; }
+        if (r.t.kind == sim::Trapped::CRASHED) break;
+        if (h == 0) { pristine = r.out; continue; }
+        o.count("probe.trace_text_compared_across_hosts");
+        if (r.out != pristine) {
+          size_t at = 0; while (at < r.out.size() && at < pristine.size() && r.out[at] == pristine[at]) at++;
+          o.violate("host_state_dependent", "-t output of the first " + std::to_string(T) + " instructions differs between host states at byte " + std::to_string(at) + " [host " + hosts[h].str() + " vs pristine, image " + v.progName + "]", "host_state_dependent:trace_text");
+        }
+      }
+      o.stateKeys.push_back("c12 trace_prefix img=" + imgClass + (v.hasSymbols ? " symbols" : ""));
     }
   }
 
